@@ -516,6 +516,33 @@ def generate(ctx):
             break
         for scheme in (0, 1, 2):
             ctx.run("kh_master", [scheme, rb(rng, 32 if scheme == 2 else rng.choice([16, 20, 24, 28, 32, 64]))], "rand")
+    # --- directed: master-key loops that need many rounds (Byron legacy: >= 10 "Root Seed Chain %d" rounds, about 1 seed
+    #     in 512; Kholaw: >= 4 re-hashes), found by search with the reference
+    def byron_rounds(seed):
+        data, i = b"\x58\x20" + seed, 1
+        while True:
+            h = hmac512(data, b"Root Seed Chain %d" % i)
+            k = hashlib.sha512(h[:32]).digest()
+            if not clamp(k[:32], 0x80)[31] & 0x20:
+                return i
+            i += 1
+    found, t = 0, 0
+    while found < ctx.n(2, 6) and t < 40000:
+        sd = hashlib.sha256(b"byron-rounds-%d" % t).digest()
+        if byron_rounds(sd) >= 10:
+            ctx.run("kh_master", [2, sd], "byron-many-rounds")
+            found += 1
+        t += 1
+    found, t = 0, 0
+    while found < ctx.n(2, 6) and t < 4000:
+        sd = hashlib.sha256(b"kholaw-rounds-%d" % t).digest()
+        h, r = hmac512(b"ed25519 seed", sd), 0
+        while h[31] & 0x20:
+            h, r = hmac512(b"ed25519 seed", h), r + 1
+        if r >= 4:
+            ctx.run("kh_master", [0, sd], "kholaw-many-rounds")
+            found += 1
+        t += 1
     # --- derivation along paths
     for _ in range(ctx.n(60, 1500)):
         if not ctx.time_left():
